@@ -7,7 +7,7 @@
     sizes; duplicate-packets mode off).  Real loopback losses for very large windows are outside (D8). *)
 From Tftp Require Import Base.Prelude Model.Types Model.Consts Model.Codec Model.Window Model.Worker Model.Spec
   Model.Server Model.Client Proofs.SpecP Proofs.SendP Proofs.RecvP Proofs.ServerP Proofs.NetP Proofs.ClientP
-  Model.Net Proofs.CosimLive.
+  Model.Net Proofs.CosimLive Proofs.CosimDup.
 Local Open Scope N_scope.
 
 (** Every valid option choice of the client (blksize 8..65464, windowsize 1..65535, timeout
@@ -102,6 +102,18 @@ Theorem C14_capacity_sufficient_completes :
   match recv_final_file rc (p_r p) with Some w => concat (rev w) = pattern_file 40 | None => False end.
 Proof. exact capacity_sufficient. Qed.
 
+(** ... and in general: whenever the receiver's buffer takes a whole window burst ([s_rep] copies of
+    [windowsize] blocks), nothing is dropped by the capacity rule and the transfer completes - every
+    file, block size, window size, repeat counts.  Finding D8 is exactly the complement. *)
+Theorem C14_within_capacity_completes : forall sc rc F,
+  wf_params (s_blk sc) (s_ws sc) -> r_blk rc = s_blk sc -> r_ws rc = s_ws sc -> s_check sc = false ->
+  s_fails sc = [] -> r_fails rc = [] -> 1 <= s_rep sc -> 1 <= r_rep rc -> 0 < s_tmo sc ->
+  forall cap, (N.to_nat (s_rep sc) * N.to_nat (s_ws sc) <= cap)%nat ->
+  exists fuel, let p := pair_run_cap sc rc cap fuel (pair_init_cap sc rc cap F) in
+    r_phase (p_r p) = RDone OutOk /\ written_bytes (w_file (r_w (p_r p))) = F /\ s_phase (p_s p) = SDone OutOk.
+Proof. exact cosim_cap_sufficient. Qed.
+
+Print Assumptions C14_within_capacity_completes.
 Print Assumptions C14_refuted_receive_capacity.
 Print Assumptions C14_both_loops_complete_together.
 Print Assumptions C14_interop_download.
